@@ -445,4 +445,37 @@ Proof.
   split; [reflexivity|]. cbn. apply in_or_app. right. left. reflexivity.
 Qed.
 
+(* ---- the fault signal is raised at most once (for runs without the open-after-shutdown step) ---- *)
+Lemma step_faults s l s' e :
+  step s l = Some (s', e) -> nfaults e = 0 \/ (nfaults e = 1 /\ cst s <> Closed /\ cst s' = Closed).
+Proof.
+  intros H. destruct s as [nw ch op tm sn ex q sd rc pd pa dl pls lw lpg].
+  destruct l; cbn in H; unfold shutdown, send_ping, ar_fail, wake_fail, tick_ok in H; cbn in H; brk; cbn;
+  try (left; reflexivity);
+  try (fold (errs tm); rewrite ?nfaults_app, nfaults_errs; cbn; first [left; reflexivity | right; repeat split; discriminate]).
+Qed.
+
+Lemma step_stays_closed s l s' e : norace s l = true -> step s l = Some (s', e) -> cst s = Closed -> cst s' = Closed.
+Proof.
+  intros N H C. destruct s as [nw ch op tm sn ex q sd rc pd pa dl pls lw lpg]. cbn in C. subst ch.
+  destruct l; cbn in H; unfold shutdown, send_ping, ar_fail, wake_fail, tick_ok in H; cbn in H; unfold norace in N; cbn in N; brk;
+  try reflexivity; try discriminate.
+Qed.
+
+Lemma run_nr_faults ls : forall s s' e,
+  run_nr s ls = Some (s', e) ->
+  (cst s = Closed -> nfaults e = 0 /\ cst s' = Closed) /\ (nfaults e = 0 \/ (nfaults e = 1 /\ cst s' = Closed)).
+Proof.
+  induction ls as [|l ls IH]; intros s s' e H; cbn in H.
+  - inversion H; subst. cbn. split; [intros C; split; [reflexivity | assumption] | left; reflexivity].
+  - destruct (norace s l) eqn:N; [|discriminate]. destruct (step s l) as [[s1 e1]|] eqn:S; [|discriminate].
+    destruct (run_nr s1 ls) as [[s2 e2]|] eqn:R; [|discriminate]. inversion H; subst.
+    destruct (IH _ _ _ R) as (I1 & I2). rewrite nfaults_app.
+    destruct (step_faults _ _ _ _ S) as [F|(F & C1 & C2)].
+    + split.
+      * intros C. pose proof (step_stays_closed _ _ _ _ N S C) as C1. destruct (I1 C1) as (X & Y). split; [lia | assumption].
+      * destruct I2 as [X|(X & Y)]; [left; lia | right; split; [lia | assumption]].
+    + destruct (I1 C2) as (X & Y). split; [intros C; contradiction | right; split; [lia | assumption]].
+Qed.
+
 End MuxP2.
